@@ -136,7 +136,12 @@ class ShapeEq:
     def build(self, xs):
         tx, s = xs[0], xs[1]
         X = geom.make(self.shape, tx, tx * F(1, 3))
-        if self.how == "reorder":
+        if self.how == "tinyhole":  # the same frame with one more, tiny hole: a different region whatever s is
+            e = F(1, 4000)
+            c = (tx + s + 3, tx * F(1, 3) + s * F(1, 2) + 3)
+            th = Primitive.polygon([(c[0] - e, c[1] - e), (c[0] - e, c[1] + e), (c[0] + e, c[1] + e), (c[0] + e, c[1] - e)])
+            Y = ConnectedShape([geom.poly("big", tx + s, tx * F(1, 3) + s * F(1, 2)), geom.poly("hole", tx + s, tx * F(1, 3) + s * F(1, 2)), th])
+        elif self.how == "reorder":
             Y = _reordered(self.shape, tx + s, tx * F(1, 3) + s * F(1, 2))
         elif self.how == "op":  # built by operators instead of the constructor
             Y = _by_operator(self.shape, tx + s, tx * F(1, 3) + s * F(1, 2))
@@ -159,7 +164,9 @@ class ShapeEq:
         big = R.zor(s >= F(1, 10**5), -s >= F(1, 10**5))
         obs = [("== / != did not return a bool", Fl if all(t == "bool" for t in out["types"]) else T, {}),
                ("== is not symmetric or != is not its negation", Fl if out["xy"] == out["yx"] and out["ne"] == (not out["xy"]) else T, {})]
-        if out["xy"]:
+        if self.how == "tinyhole":
+            obs.append(("== is True for different regions", T if (out["xy"] or out["yx"]) else Fl, {}))
+        elif out["xy"]:
             obs.append(("== is True for different regions", big, {}))
         else:
             obs.append(("== is False for two descriptions of the same region", R.zb(s == 0), {}))
@@ -179,6 +186,8 @@ class ShapeEq:
         if name.startswith("== is not symmetric"):
             return not (outcome["xy"] == outcome["yx"] and outcome["ne"] == (not outcome["xy"])), desc + f": {outcome}"
         s = xs[1]
+        if self.how == "tinyhole":
+            return bool(outcome["xy"] or outcome["yx"]), desc + f": a frame and the same frame with an extra tiny hole compare {outcome['xy']} / {outcome['yx']}"
         if s != 0 and abs(s) < F(1, 10**5):
             return False, "band"
         return outcome["xy"] != (s == 0), desc + f": library says {outcome['xy']} (kinds {outcome['kinds']})"
@@ -272,6 +281,7 @@ def specs(tier):
     for s in ["hollow", "two"] + (["framedot", "inv:two", "hollow2"] if tier != "quick" else []):
         for how in ("same", "reorder", "op"):
             out.append(dict(module=Mo, scenario="ShapeEq", params=dict(shape=s, how=how), time_budget=90 if tier == "quick" else 900))
+    out.append(dict(module=Mo, scenario="ShapeEq", params=dict(shape="hollow", how="tinyhole"), time_budget=90 if tier == "quick" else 900))
     return out
 
 
